@@ -356,9 +356,9 @@ def finish(prop, tier, seed, results, crashed, outdir, wall):
 
 
 REAL = ["pkg/wal", "pkg/memtable", "pkg/sstable (+block, footer, bloom_filter)", "pkg/engine (facade, storage manager, iterators)",
-        "pkg/compaction", "pkg/transaction", "pkg/config", "pkg/stats", "pkg/replication (state machines, batching, serialization)", "pkg/grpc/service handlers"]
+        "pkg/compaction", "pkg/transaction", "pkg/config", "pkg/stats", "pkg/replication (Manager, Primary, Replica, heartbeat monitor, batching, compression, serialization, EngineApplier)", "pkg/grpc/service handlers"]
 STUB = ["OS files (simos in-memory disk)", "goroutine scheduling choice (simrt baton scheduler)", "clock (testing/synctest fake clock)",
-        "select/map/math-rand randomness (seeded runtime overlay)", "gRPC/HTTP2/TCP transport (simnet)"]
+        "select/map/math-rand randomness (seeded runtime overlay)", "gRPC/HTTP2/TCP transport (simnet); net.Listen and the default dialing connector of pkg/replication (seams substituted in the scratch copy)"]
 ASSUME = ["instrumentation by source rewriting preserves kevo's logic (imports, go statements, channel operations only)",
           "go1.26.8 testing/synctest and the 4-file runtime overlay behave as documented",
           "crash model PROC: bytes handed to the OS survive process death; POWER-DATA where stated"]
